@@ -235,6 +235,10 @@ Proof.
     subst a. apply Hs.
   - (* OpDelUpdater *)
     intros us E. discriminate E.
+  - (* OpTrainerUpdate *)
+    destruct (existsb (Z.eqb 0) cells); [|exact H].
+    destruct (upd RN w) as [us|] eqn:Eu; [|exact H].
+    apply finish_holds. unfold updater_forward. apply apply_names_holds, H, Eu.
 Qed.
 
 Theorem run_holds ops : forall w, Forall safe_op ops -> holds w -> holds (run RN w ops).
